@@ -19,7 +19,7 @@ def build(ctx, name, sources, libs=(), defines=(), sanitize=True, opt="-O1", ext
     """Compile `sources` (absolute paths or repo-relative 'src/...' or harness-relative) into an executable
     under ctx.work.  Each source is its own TU, compiled in parallel.  Returns exe path or None."""
     objs, jobs = [], []
-    cov = ["--coverage"] if os.environ.get("VERIF_COV") else []      # tools/coverage.sh: which lines of /repo do the streams execute?
+    cov = ["--coverage", "-DHX_COV"] if os.environ.get("VERIF_COV") else []      # tools/coverage.sh: which lines of /repo do the streams execute?
     flags = cflags(ctx.repo, defines) + ["-g", opt, "-w"] + (SAN if sanitize else []) + list(extra) + cov
     odir = os.path.join(ctx.work, "obj_" + name)
     os.makedirs(odir, exist_ok=True)
